@@ -24,6 +24,9 @@ type stubCtx struct {
 	curG, callG  [2]bool
 	entry        bool
 	k            [2]*keys.PublicKey
+	// round 4: the groups of the current / calling script cannot be read for key i
+	// (the method fails, as the engine's does without ReadStates)
+	curE, callE [2]bool
 }
 
 func (s *stubCtx) GetCallingScriptHash() util.Uint160 { return s.calling }
@@ -32,6 +35,9 @@ func (s *stubCtx) IsCalledByEntry() bool              { return s.entry }
 func (s *stubCtx) CallingScriptHasGroup(k *keys.PublicKey) (bool, error) {
 	for i := range s.k {
 		if s.k[i].Equal(k) {
+			if s.callE[i] {
+				return false, errStubGroups
+			}
 			return s.callG[i], nil
 		}
 	}
@@ -40,6 +46,9 @@ func (s *stubCtx) CallingScriptHasGroup(k *keys.PublicKey) (bool, error) {
 func (s *stubCtx) CurrentScriptHasGroup(k *keys.PublicKey) (bool, error) {
 	for i := range s.k {
 		if s.k[i].Equal(k) {
+			if s.curE[i] {
+				return false, errStubGroups
+			}
 			return s.curG[i], nil
 		}
 	}
@@ -53,14 +62,24 @@ func (s *stubCtx) String() string {
 		}
 		return '0'
 	}
+	g := func(v, e [2]bool, i int) byte {
+		if e[i] {
+			return 'E' // cannot be read
+		}
+		return b(v[i])
+	}
 	return fmt.Sprintf("cur=%s,calling=%s,curGroups=%c%c,callingGroups=%c%c,byEntry=%c", s.cur.StringBE()[:4], s.calling.StringBE()[:4],
-		b(s.curG[0]), b(s.curG[1]), b(s.callG[0]), b(s.callG[1]), b(s.entry))
+		g(s.curG, s.curE, 0), g(s.curG, s.curE, 1), g(s.callG, s.callE, 0), g(s.callG, s.callE, 1), b(s.entry))
 }
 
 type matchWorld struct {
 	n    names
 	ctxs []*stubCtx
 	ws   []where // the same contexts as the reference predicate sees them
+	// round 4 (ext_err_test.go): contexts in which group facts cannot be read
+	ectxs []*stubCtx
+	ews   []where
+	nE    int // how many of them this tier uses (the quick ones come first)
 }
 
 func newMatchWorld() *matchWorld {
@@ -113,6 +132,7 @@ func newMatchWorld() *matchWorld {
 			}
 		}
 	}
+	m.addErrorContexts(hs, k, ks)
 	return m
 }
 
@@ -137,9 +157,12 @@ type mtree struct {
 	s    *scond
 	ref  *cond
 	real transaction.WitnessCondition
+	hasG bool // contains a Group / CalledByGroup leaf
 }
 
-func (m *matchWorld) mk(s *scond) mtree { return mtree{s: s, ref: s.ref(&m.n), real: s.real(&m.n)} }
+func (m *matchWorld) mk(s *scond) mtree {
+	return mtree{s: s, ref: s.ref(&m.n), real: s.real(&m.n), hasG: readsGroups(s)}
+}
 
 type matchFail struct {
 	Layer string `json:"layer"`
@@ -217,7 +240,7 @@ func (m *matchWorld) checkTree(t mtree, rt bool, report func(matchFail)) int {
 			}
 		}
 	}
-	return n
+	return n + m.checkTreeErr(t, false, report)
 }
 
 // runMatch enumerates all trees of depth <= 2 (inner And/Or nodes of up to w1
@@ -225,6 +248,9 @@ func (m *matchWorld) checkTree(t mtree, rt bool, report func(matchFail)) int {
 // 3-ary node is paired with leaves only) and checks each.
 func runMatch(r *vk.Run, w1 int, cov map[string]any) {
 	m := newMatchWorld()
+	if r.Thorough() {
+		m.nE = len(m.ectxs) // per-key failures too
+	}
 	leaves := matchLeaves()
 	var t1 []mtree // depth <= 1
 	for _, l := range leaves {
@@ -303,6 +329,12 @@ func runMatch(r *vk.Run, w1 int, cov map[string]any) {
 		evals.Add(n)
 		trees.Add(k)
 	})
+	if r.Thorough() {
+		runMatchDeep(r, m, report) // ext_err_test.go: depth 3 over a small leaf set
+		trees.Add(int(deepTrees.Get()))
+		evals.Add(int(deepEvals.Get()))
+	}
+	matchErrCoverage(r, m, cov)
 	cov["match_trees"] = int(trees.Get())
 	cov["match_evaluations"] = int(evals.Get())
 	cov["match_contexts"] = len(m.ctxs)
@@ -322,6 +354,9 @@ func (m *matchWorld) compose(op string, ch ...mtree) mtree {
 		rl = append(rl, c.real)
 	}
 	t := mtree{s: s, ref: ref}
+	for _, c := range ch {
+		t.hasG = t.hasG || c.hasG
+	}
 	switch op {
 	case "not":
 		t.real = &transaction.ConditionNot{Condition: rl[0]}
